@@ -4,6 +4,9 @@
 (* Every event echoes the catalog and logs, for every name of the universe, what the writer would find in the table   *)
 (* under that name (lk) and the raw keys no name asks for (extra).  The acceptor is a pure predicate:                 *)
 (* Contract(cat, mode, lk, extra) of DroppedSnapshot.tla - nothing of the design is consulted.                        *)
+(* The catalog names two clocks: cat.now = the TSO key the driver wrote (the source's current time) and cat.local =  *)
+(* what the clock of the host showed at that moment (the driver shifts the catalog's time base so that this holds on   *)
+(* the real wall clock).  The contract measures "just below the source's current time" against cat.now only.           *)
 (* Known findings (env KF_<id>=1): a rejected event is accepted iff the logged table is exactly what the design with  *)
 (* the enabled deviations computes; "KF <plan> <id>" is printed for every deviation that is needed for that.          *)
 EXTENDS DroppedSnapshot, IOUtils
@@ -21,7 +24,8 @@ EvLk(e) == LET S == ToSet(e.lk)
 
 KFNames == {"C15_STALEDB", "C15_LIVEDB", "C15_KEYCLASH"}
 KFEnabled == {n \in KFNames : KFOn(n)}
-FlagsFor(S) == [stale |-> "C15_STALEDB" \in S, guard |-> "C15_LIVEDB" \notin S, safekeys |-> "C15_KEYCLASH" \notin S]
+FlagsFor(S) == [stale |-> "C15_STALEDB" \in S, guard |-> "C15_LIVEDB" \notin S, safekeys |-> "C15_KEYCLASH" \notin S,
+                clamp |-> FALSE]                    \* no known finding about the clock: the TSO key is the current time
 DesignLk(cat, mode, S) == LkOf(cat, FlagsFor(S), Design(cat, mode, FlagsFor(S)))
 
 Ideal(e) == Contract(e.cat, e.mode, EvLk(e), ToSet(e.extra))
